@@ -888,7 +888,11 @@ impl World {
             None => false,
         };
         self.push(g, EvKind::PutIssued { put, ent, predicted });
-        if ok {
+        if ok && p.src_name.starts_with("ff_") {
+            // a fire-and-forget Put: the user does not wait for the transaction id (the reply
+            // channel is gone when the daemon answers)
+            drop(rx);
+        } else if ok {
             // the reply is collected by the scheduler side: stash receiver
             PUT_REPLIES.with(|r| r.borrow_mut().push((put, rx)));
         }
